@@ -314,6 +314,7 @@ struct Cfg
   bool probe{true};
   bool sc{false};
   size_t passes{2}, extra{0};
+  std::string runloop; // "" = P polls then on-demand polls; else the backend thread's run loop with this memory order
   std::vector<POp> ops2; // second frontend thread (whole-system variant)
 };
 static Cfg g_cfg;
@@ -889,6 +890,7 @@ struct SysHarness
     bo.transit_event_buffer_initial_capacity = 2;
     bo.check_printable_char = {};
     bw->_init(bo);
+    if (!g_cfg.runloop.empty()) bw->_is_worker_running.store(true); // Backend::start returns once the backend thread has set this
     // thread 1 logs through logger A (which it may remove and re-create: generation g writes to sink 10 + g), thread 3 through B
     lg_of[1] = F::create_or_get_logger("A", std::make_shared<SysSink>(sink_id(1, 0)), quill::PatternFormatterOptions{"%(message)"}, quill::ClockSourceType::System);
     lg_of[3] = F::create_or_get_logger("B", std::make_shared<SysSink>(sink_id(3, 0)), quill::PatternFormatterOptions{"%(message)"}, quill::ClockSourceType::System);
@@ -908,7 +910,7 @@ struct SysHarness
       }
       if (W->abort_exec) return;
       LG* lg = lg_of[me];
-      if ((o.kind == 'l' || o.kind == 'f' || o.kind == 'R' || o.kind == 'B') && !lg) continue; // the logger is gone: nothing to use
+      if ((o.kind == 'l' || o.kind == 'f' || o.kind == 'R' || o.kind == 'B') && (!lg || stop_returned)) continue; // the logger is gone / the backend stopped
       if (o.kind == 'l')
       {
         bool const ok = lg->template log_statement<false, false>(quill::LogLevel::None, &md, me, static_cast<int>(o.n));
@@ -946,6 +948,23 @@ struct SysHarness
       {
         ++gen_of[me];
         lg_of[me] = F::create_or_get_logger(name_of(me), std::make_shared<SysSink>(sink_id(me, gen_of[me])), quill::PatternFormatterOptions{"%(message)"}, quill::ClockSourceType::System);
+      }
+      else if (o.kind == 'S')
+      {
+        // Backend::stop(): request + join. Every statement whose call completed before is written when it returns
+        bw->stop();
+        W->custom_wake = [] { return W->th[2].finished; };
+        if (!W->th[2].finished) block_on_custom_condition();
+        if (W->abort_exec) return;
+        W->th[W->cur].clk.join(W->th[2].clk); // join
+        size_t got = 0;
+        std::string const pre = ":m" + std::to_string(me) + ".";
+        for (auto const& r : recs)
+          if (r.find(pre) != std::string::npos) ++got;
+        if (got != logged_of[me].size())
+          fail("stop-returned-before-statement-written", "Backend::stop() returned with " + std::to_string(got) + " of the " + std::to_string(logged_of[me].size()) +
+                                                          " statements the stopping thread had logged before at the sink");
+        stop_returned = true;
       }
       else if (o.kind == 'f')
       {
@@ -1000,8 +1019,31 @@ struct SysHarness
       if (t < MAXT && !W->th[t].finished) return false;
     return true;
   }
+  bool stop_returned{false};
   void consumer()
   {
+    if (!g_cfg.runloop.empty())
+    {
+      // the loop of the backend thread (the lambda in BackendWorker::run cannot run here: it is handed to std::thread). The
+      // memory order of the loop's load is read from the source by the driver (and the driver fails if the loop looks
+      // different from what this replica assumes): while (_is_worker_running.load(order)) _poll();  _exit();
+      std::memory_order const mo = g_cfg.runloop == "relaxed" ? std::memory_order_relaxed : g_cfg.runloop == "acquire" ? std::memory_order_acquire : std::memory_order_seq_cst;
+      size_t polls = 0;
+      while (bw->_is_worker_running.load(mo) && !W->abort_exec)
+      {
+        if (++polls > g_cfg.passes + g_cfg.extra)
+        {
+          // nothing left to explore with a still running backend: wait for the stop request
+          block_until_newer(bw->_is_worker_running.vf_id());
+          if (W->abort_exec) return;
+          continue;
+        }
+        bw->_poll();
+      }
+      if (W->abort_exec) return;
+      bw->_exit();
+      return;
+    }
     for (size_t i = 0; i < g_cfg.passes && !W->abort_exec; ++i) bw->_poll();
     // afterwards the backend keeps polling only for as long as a frontend is waiting for it (at most `extra` more polls: a
     // correct backend serves a waiting frontend within two; a frontend still waiting after them is reported as a deadlock)
@@ -1025,7 +1067,7 @@ struct SysHarness
     for (size_t k = 0; k < W->th[0].view.size(); ++k) W->th[0].view[k] = static_cast<int>(W->locs[k].mo.size()) - 1;
     W->latest_only = true;
     size_t before = recs.size() + 1;
-    for (int i = 0; i < 12 && (recs.size() != before || i < 3); ++i)
+    for (int i = 0; g_cfg.runloop.empty() && i < 12 && (recs.size() != before || i < 3); ++i) // (a stopped backend polls no more)
     {
       before = recs.size();
       bw->_poll();
@@ -1038,6 +1080,10 @@ struct SysHarness
       std::string const pre = ":m" + std::to_string(me) + ".";
       for (auto const& r : recs)
         if (r.find(pre) != std::string::npos) got.push_back(r.substr(r.find(':') + 1));
+      // (a stopped backend owes nothing to statements of another thread that were not ordered before the stop request:
+      // they stay queued for the next start)
+      bool const exempt = !g_cfg.runloop.empty() && me != 1;
+      if (exempt && got.size() <= logged_of[me].size() && std::equal(got.begin(), got.end(), logged_of[me].begin())) got = logged_of[me];
       if (got != logged_of[me])
       {
         std::string a, b;
@@ -1055,6 +1101,8 @@ struct SysHarness
       std::string const pre = ":m" + std::to_string(me) + ".";
       for (auto const& r : recs)
         if (r.find(pre) != std::string::npos) at_sink.emplace_back(atoi(r.c_str()), r.substr(r.find(':') + 1));
+      bool const exempt = !g_cfg.runloop.empty() && me != 1;
+      if (exempt && at_sink.size() <= logged_via_of[me].size() && std::equal(at_sink.begin(), at_sink.end(), logged_via_of[me].begin())) at_sink = logged_via_of[me];
       if (at_sink != logged_via_of[me] && !W->violation)
         fail("statement-at-wrong-sink", "statements of thread " + std::to_string(me) + " did not reach the sinks of the logger generations they were logged through");
       for (int g = 0; g <= gen_of[me]; ++g)
@@ -1266,7 +1314,7 @@ static std::string cfg_string()
   {
     std::string o2;
     for (auto const& o : g_cfg.ops2) o2 += (o2.empty() ? "" : ",") + std::string(1, o.kind) + std::to_string(o.n);
-    return "mode=" + g_cfg.mode + " sc=" + std::to_string(g_cfg.sc ? 1 : 0) + " passes=" + std::to_string(g_cfg.passes) + " extra=" + std::to_string(g_cfg.extra) + " ops=" + ops + (o2.empty() ? "" : " ops2=" + o2);
+    return "mode=" + g_cfg.mode + " sc=" + std::to_string(g_cfg.sc ? 1 : 0) + " passes=" + std::to_string(g_cfg.passes) + " extra=" + std::to_string(g_cfg.extra) + (g_cfg.runloop.empty() ? "" : " runloop=" + g_cfg.runloop) + " ops=" + ops + (o2.empty() ? "" : " ops2=" + o2);
   }
   if (false) return "mode=" + g_cfg.mode + " sc=" + std::to_string(g_cfg.sc ? 1 : 0) + " passes=" + std::to_string(g_cfg.passes) + " ops=" + ops;
   return "mode=unbounded initial=" + std::to_string(g_cfg.initial) + " max=" + std::to_string(g_cfg.maxcap) + " ops=" + ops;
@@ -1424,6 +1472,7 @@ int main(int argc, char** argv)
   g_cfg.sc = a.geti("--sc", 0) != 0;
   g_cfg.passes = static_cast<size_t>(a.geti("--passes", 2));
   g_cfg.extra = static_cast<size_t>(a.geti("--extra", 0));
+  g_cfg.runloop = a.get("--runloop", "");
   {
     std::string s2 = a.get("--ops2", "");
     size_t p2 = 0;
